@@ -90,8 +90,9 @@ Definition same_space (a b : ident) : bool :=
 Definition has (c : N) (s : bytes) : bool := existsb (N.eqb c) s.
 Definition known_kind (k : bytes) : bool :=
   match assoc k kind_table with Some _ => true | None => false end.
-(* names and namespaces are validated resource names: no '/' (and no newline) in them *)
-Definition clean (s : bytes) : bool := negb (has slash s) && negb (has nl s).
+(* names and namespaces are validated resource names: no '/', no newline and no ',' in them *)
+Definition comma : N := 44%N.
+Definition clean (s : bytes) : bool := negb (has slash s) && (negb (has nl s) && negb (has comma s)).
 Definition valid_pid (x : policy_id) : bool :=
   known_kind (p_kind x) && clean (p_name x) && clean (p_ns x).
 Definition nonempty (s : bytes) : bool := match s with [] => false | _ => true end.
